@@ -11,6 +11,7 @@ from . import common
 T0 = 1893456000                      # 2030-01-01T00:00:00Z
 EPOCH = datetime.datetime(1970, 1, 1)
 USERS = [1001, 1002, 1003, 1004]
+CROWD = list(range(2001, 2041))      # further users the harness' password database knows (hx_crowd)
 UNLIMITED = 63
 
 
@@ -135,19 +136,18 @@ class Ref:
         return out
 
     def _add(self, peer, spec):
-        known = peer in USERS or peer == 0
+        known = peer in USERS or peer in CROWD or peer == 0
         owner = spec.owner
-        if owner is not None and owner not in USERS + [0]:
+        if owner is not None and owner not in USERS + CROWD + [0]:
             owner = None
-        if not known and owner is None:
-            return False
-        if not known and self.me and owner != self.me:
+        if not known:
+            # somebody the password database does not know acts for nobody (C11: never as another user)
             return False
         if owner is None and self.me and peer != self.me:
             return False
         if known and owner is not None and owner != peer:
             return False
-        who = peer if known else owner
+        who = peer
         old = self.tasks.get(spec.uid)
         if old is not None and old["owner"] != who:
             return False
@@ -212,6 +212,20 @@ class Ref:
             allowed = set(mine(url_uid)) if url_uid is not None else set()
         return allowed
 
+    def http_queue(self, peer, url_uid):
+        """GET [/u/N]/queue: the user's queue as the spool has it, after the changes not yet saved have been written;
+        returns (tasks that may be listed, tasks that must be listed)"""
+        if peer != 0:
+            if url_uid is not None and (peer & url_uid) != peer:
+                return set(), set()
+            target = peer
+        else:
+            target = url_uid
+        if target in self.dirty or len(self.dirty) >= 16:
+            self.checkpoint()
+        own = {uid for uid, t in self.tasks.items() if t["owner"] == target}
+        return own | set(self.files.get(target, [])), {uid for uid in own if self.tasks[uid]["occ"]}
+
     def _retire(self, uid):
         t = self.tasks.pop(uid)
         self._mark(t["owner"])
@@ -232,9 +246,13 @@ class Ref:
         return sorted((uid, t["owner"], t["running"]) for uid, t in self.tasks.items())
 
     def checkpoint(self):
-        users = self.dirty if len(self.dirty) < 16 else sorted({t["owner"] for t in self.tasks.values()})
+        full = len(self.dirty) >= 16
+        users = self.dirty if not full else sorted({t["owner"] for t in self.tasks.values()})
         for u in users:
             self.files[u] = sorted(uid for uid, t in self.tasks.items() if t["owner"] == u and t["occ"])
+        if full:
+            # the complete dump leaves no file of a user without tasks
+            self.files = {u: f for u, f in self.files.items() if u in users}
         self.dirty = []
 
     def listing(self):
@@ -253,10 +271,43 @@ def gen_history(rng, knobs):
     uids = ["job%d" % i for i in range(1, rng.choice([2, 3, 5]) + 1)]
     nsteps = rng.randint(6, knobs.get("steps", 22))
     spawned = 0
+    pool = USERS[:knobs.get("nusers", 3)]
+    if knobs.get("httpq", False) and rng.random() < 0.4:
+        # users from another power-of-two range of uids, and root, as clients
+        pool = pool[:2] + rng.sample(CROWD, 2) + ([0] if rng.random() < 0.5 else [])
     for _ in range(nsteps):
         r = rng.random()
+        if knobs.get("httpq", False) and r < 0.012:
+            # a busy spell: more acknowledged requests than the daemon's list of marks holds, then somebody looks at a queue
+            who = rng.sample(pool, 2) if len(pool) > 1 else pool * 2
+            for j in range(rng.randint(15, 18)):
+                spec = TaskSpec("b%d_%d" % (len(ops), j), [now + 500 + j], None, 0)
+                pr = who[0] if j < 15 else rng.choice(who)
+                op, a = request(pr, [spec])
+                ops.append(op); acts.append(("A", pr, a))
+            pr = rng.choice(who)
+            reqline = "GET /queue HTTP/1.1\r\n\r\n"
+            ops.append("HQ %d %s - -" % (pr, reqline.encode().hex())); acts.append(("HQ", pr, None, "/queue"))
+            continue
+        if knobs.get("httpq", False) and r < 0.03:
+            # a spell of requests and looks at the spool by users of both uid ranges: every look by a user with unsaved
+            # changes is a checkpoint, so the daemon's list of marks is filled and emptied many times over
+            mixed = USERS[:3] + rng.sample(CROWD, 2) + [0]
+            for j in range(rng.randint(8, 16)):
+                pr = rng.choice(mixed)
+                if rng.random() < 0.6:
+                    spec = TaskSpec("v%d_%d" % (len(ops), j), [now + 700 + j], None, 0)
+                    op, a = request(pr, [spec])
+                    ops.append(op); acts.append(("A", pr, a))
+                else:
+                    uu = rng.choice([None, None, pr]) if pr else rng.choice(mixed[:5])
+                    path = ("/u/%d" % uu if uu is not None else "") + "/queue"
+                    reqline = "GET %s HTTP/1.1\r\n\r\n" % path
+                    ops.append("HQ %d %s %s -" % (pr, reqline.encode().hex(), "-" if uu is None else uu))
+                    acts.append(("HQ", pr, uu, path))
+            continue
         if r < 0.30:
-            peer = rng.choice(USERS[:knobs.get("nusers", 3)] + ([1009] if rng.random() < 0.1 else []))
+            peer = rng.choice(pool + ([1009] if rng.random() < 0.1 else []))
             items = []
             cancel_req = rng.random() < knobs.get("p_cancel", 0.2)     # one METHOD per request
             for _ in range(rng.choice([1, 1, 1, 2, 3])):
@@ -285,6 +336,13 @@ def gen_history(rng, knobs):
             k = rng.randint(0, max(0, spawned))
             ops.append("TX %d %d" % (now, k)); acts.append(("TX", now, k))
             spawned += 2
+        elif r < 0.68 and knobs.get("httpq", False):
+            peer = rng.choice(pool + [0])
+            url_uid = rng.choice([None, None, None, peer, rng.choice(USERS), 1023, 2047])
+            path = ("/u/%d" % url_uid if url_uid is not None else "") + "/queue"
+            reqline = "GET %s HTTP/1.1\r\n\r\n" % path
+            ops.append("HQ %d %s %s -" % (peer, reqline.encode().hex(), "-" if url_uid is None else url_uid))
+            acts.append(("HQ", peer, url_uid, path))
         elif r < 0.70 and knobs.get("http", False):
             peer = rng.choice(USERS[:knobs.get("nusers", 3)] + [0])
             url_uid = rng.choice([None, None, peer, rng.choice(USERS), 1023, 2047, 4294967295])
@@ -325,6 +383,8 @@ def run_ref(acts, me=0, groups=None):
             outs.append(("TX", (x, sorted(sp))))
         elif a[0] == "H":
             outs.append(("H", ref.http_sched(a[1], a[2], a[3])))
+        elif a[0] == "HQ":
+            outs.append(("HQ", ref.http_queue(a[1], a[2])))
         elif a[0] == "Q":
             outs.append(("Q", ref.table()))
         elif a[0] == "C":
@@ -376,6 +436,16 @@ def compare(acts, answer, me=0):
                               % (i, a[1], a[4], sorted(listed - w), sorted(w))))
             elif status == "200" and a[2] in (None, a[1]) and not a[3] and listed != w:
                 diffs.append(("C11", "op %d: user %d listing its tasks sees %s, its queue holds %s" % (i, a[1], sorted(listed), sorted(w))))
+        elif kind == "HQ":
+            status, _, body = g.partition(":")
+            listed = set(x for x in body.split("+") if x)
+            may, must = w
+            if not listed <= may:
+                diffs.append(("C11", "op %d: user %d asking %s is shown %s, which are not current tasks of that queue (%s)"
+                              % (i, a[1], a[3], sorted(listed - may), sorted(may))))
+            elif not must <= listed:
+                diffs.append(("C11", "op %d: user %d asking %s is shown %s (status %s); accepted and still to run: %s"
+                              % (i, a[1], a[3], sorted(listed), status, sorted(must))))
         elif kind == "A":
             got = re.findall(r"rp\([^)]*\)", g)
             if got != w:
